@@ -455,3 +455,69 @@ def param_at_call_sites(ctx, body, term):
             if (t.get('callee') == body.name or t.get('resolved') == body.name) and term[2] < len(t['args']):
                 out.append(cb.origin.operand(t['args'][term[2]], cb.term_point(bb)))
     return out
+
+
+# ---------------------------------------------------------------------------------------------------------------
+# guards of a call site (used to judge guards that the normalisation hoisted out of a callee)
+# ---------------------------------------------------------------------------------------------------------------
+import re as _re
+
+
+def atom_text(a):
+    def sh(x):
+        return _re.sub(r'@bb\d+', '', M.show(x)) if isinstance(x, tuple) else (''.join(sorted(x)) if isinstance(x, (set, frozenset)) else str(x))
+    return ' '.join(sh(x) for x in a)
+
+
+def necessary_guards(body, point):
+    """texts of the atoms of every switch edge that all paths from the entry to `point` must cross"""
+    out = set()
+    for bbk in body.live_blocks():
+        if body.term(bbk)['k'] != 'switch':
+            continue
+        for (tb, lab) in body.succ(bbk):
+            others = [(bbk, l2) for (t2, l2) in body.succ(bbk) if l2 != lab]
+            if point not in body.reach([(0, 0)], cut_edges=[(bbk, lab)]):
+                for a in M.lit_atoms(M.edge_literal(body, bbk, lab)):
+                    out.add(atom_text(a))
+    return out
+
+
+def call_guard_table(F):
+    """{caller body name: {callee path: sorted atom texts}} for the direct calls of private crate-local functions"""
+    tab = {}
+    for cb in F.bodies.values():
+        for (bb, t) in cb.calls():
+            c = t.get('callee')
+            if c in F.bodies or c in getattr(F, 'absorbed_bodies', {}):
+                g = necessary_guards(cb, cb.term_point(bb))
+                cur = tab.setdefault(cb.name, {}).get(c)
+                tab[cb.name][c] = sorted(g if cur is None else (set(cur) & g))
+    return tab
+
+
+def r_hoisted_guards(ctx):
+    """R00.1 — a private function that always acted when called (reference tree) and now starts with an early return had that test hoisted to
+    its call sites by the guard normalisation; the hoisted test is legitimate only if it was ALREADY the condition of the call on the
+    reference tree (a guard moved from the caller into the callee). A new condition is a new reason not to do what the step does: the
+    rules of the callee no longer see it (for them the callee runs exactly when the hoisted test lets it), so it is judged here."""
+    import json, os
+    from .. import canon
+    notes = [n for n in (ctx.F.doc.get('canon_notes') or []) if n.get('kind') == 'entry guard']
+    if not notes or not os.path.isfile(canon.REF):
+        ctx.ok('R00.1', 'no-hoisted-guard', None, '-', 'no private function gained an early return that had to be hoisted to its call sites')
+        return
+    with open(canon.REF) as f:
+        ref = json.load(f).get('call_guards', {})
+    for n in notes:
+        callee = n['owner'] + '::' + n['reference'].split(' ')[0]
+        for cb in ctx.F.bodies.values():
+            for (bb, t) in cb.calls():
+                if t.get('callee') != callee:
+                    continue
+                now = necessary_guards(cb, cb.term_point(bb))
+                was = set(ref.get(cb.name, {}).get(callee, []))
+                new = sorted(now - was)
+                ctx.check(not new, 'R00.1', 'hoisted-guard/%s<-%s' % (callee.split('::')[-1], (cb.fn_name or 'closure')), cb, cb.loc(bb),
+                          'the early return that %s gained is the guard its call site already had' % callee.split('::')[-1],
+                          '%s now returns early under a condition that did not guard its call before (%s): a step that always acted when called can be skipped for a new reason' % (callee.split('::')[-1], '; '.join(new)[:200]))
